@@ -172,8 +172,8 @@ Proof.
     split; [eapply Inv_Keeps; eauto|]. eapply Ext_trans; [exact X1|apply Keeps_Ext, K]. }
   destruct (has (s_flags sg) fRst).
   { destruct (acceptable _ _ _).
-    - split; [eapply Inv_Keeps; [apply resetConnection_Keeps|exact HI]|].
-      apply Keeps_Ext, resetConnection_Keeps.
+    - split; [eapply Inv_Keeps; [apply abortOnReset_Keeps|exact HI]|].
+      apply Keeps_Ext, abortOnReset_Keeps.
     - apply TAIL; [exact HI|apply Ext_refl]. }
   apply TAIL.
   - destruct (has (s_flags sg) fAck); [|exact HI].
